@@ -9,7 +9,7 @@ From LV Require Import Base.Bytes Base.Sx Model.Obj Model.Writer Model.Parser Mo
   Spec.RefWriter Proofs.SpellingProofs Proofs.LitStringProofs Proofs.SpellingProofsLit
   Model.Loader Proofs.RealProofs Proofs.ObjectRtProofs.
 From LV Require Model.A85 Model.AsciiHex Spec.AsciiHexSpec Proofs.AsciiHexProofs.
-From LV Require Import Proofs.SpellingNumProofs Proofs.SpellingObjProofs.
+From LV Require Import Proofs.SpellingNumProofs Proofs.SpellingObjProofs Proofs.SpellingFileProofs.
 Local Open Scope N_scope.
 
 (* (1) Cross-reference streams.  For ALL field widths (0 = field absent, any positive width, not all three
@@ -223,6 +223,36 @@ Theorem C02_dictionary_any_spelling :
     dictionary f (w_obj (ODict d) y ++ rest) = POk (denote_dict d (dict_sts y)) rest.
 Proof. exact dictionary_any_spelling. Qed.
 
+(* INDIRECT OBJECTS (the unit the loader reads at every cross-reference offset), against the loader model's
+   parser::_indirect_object (Model/Loader.v, C01).  Any filler after the object number, after the generation,
+   after "obj" and after the object; the object in any spelling; ANYTHING after "endobj" ([post]). *)
+Theorem C02_indirect_object_any_spelling :
+  forall id gen o (y : istyle) post,
+    id <= u32_max -> gen <= u16_max -> (forall d c, o <> OStream d c) ->
+    spell_wf o (i_obj y) -> (nest o <= MAX_DEPTH)%nat ->
+    indirect_object (w_indirect id gen o y ++ post) None = IOk (id, gen) (denote o (i_obj y)).
+Proof. exact indirect_any_spelling. Qed.
+
+(* streams: any spelling of the dictionary, any filler before "stream", "stream" followed by CR LF or LF, the data,
+   an optional end-of-line marker (any of the three) before "endstream"; Length written directly.  The loaded
+   stream holds exactly the data; its Length entry is (re)set to the data length. *)
+Theorem C02_indirect_stream_any_spelling :
+  forall id gen d c (y : istyle) post,
+    id <= u32_max -> gen <= u16_max ->
+    spell_wf (ODict d) (i_obj y) -> (nest (ODict d) <= MAX_DEPTH)%nat ->
+    dict_get d K_Length = Some (OInt (Z.of_nat (length c))) ->
+    indirect_object (w_indirect id gen (OStream d c) y ++ post) None =
+    IOk (id, gen) (stream_new (denote_dict d (dict_sts (i_obj y))) c).
+Proof. exact indirect_stream_any_spelling. Qed.
+
+(* the trailer: "trailer", any filler, the dictionary in any spelling, any filler, then the next token *)
+Theorem C02_trailer_any_spelling :
+  forall (f1 f2 : filler) d (y : ostyle) next post,
+    spell_wf (ODict d) y -> (nest (ODict d) <= MAX_DEPTH)%nat -> next <> [] -> tok_start (next ++ post) = true ->
+    trailer (join [(bs "trailer", f1); (w_obj (ODict d) y, f2); (next, [])] ++ post) =
+    POk (denote_dict d (dict_sts y)) (next ++ post).
+Proof. exact trailer_any_spelling. Qed.
+
 (* what is read back has the value that was written *)
 Theorem C02_denote_same_value : forall o y, spell_wf o y -> same_value o (denote o y).
 Proof. exact denote_same_value. Qed.
@@ -418,6 +448,9 @@ Print Assumptions C02_object_any_spelling.
 Print Assumptions C02_object_alts_any_spelling.
 Print Assumptions C02_dictionary_any_spelling.
 Print Assumptions C02_denote_same_value.
+Print Assumptions C02_indirect_object_any_spelling.
+Print Assumptions C02_indirect_stream_any_spelling.
+Print Assumptions C02_trailer_any_spelling.
 Print Assumptions C02_example_object.
 Print Assumptions C02_example_literal.
 Print Assumptions C02_example_spellings.
